@@ -197,6 +197,31 @@ def run_framing(case):
     return out
 
 
+def run_framing_large(case):
+    """payload lengths up to what the 16-bit length prefix of the stream allows (65533), a short packet before and after"""
+    out = Outcome(nontrivial=True)
+    pkts = []
+    for k, L in enumerate(case['lengths']):
+        pkts.append({'src': 1 + k % 4, 'dst': 3, 'fn': [3, 5, 1][k % 3], 'last': k % 2 == 1, 'data': [(i * 7 + L + k) & 0xff for i in range(L)]})
+    stream = _stream(pkts)
+    out.feat('large-payload-%s' % ('>=32766' if max(case['lengths']) >= 32766 else '<32766'))
+    got, err, sock = _read_all(stream, [c for c in case['cuts'] if 0 < c < len(stream)], len(pkts))
+    desc = 'payload lengths %r cuts %r' % (case['lengths'], case['cuts'])
+    if err is not None:
+        out.fail('framing:exception', '%s: %r' % (desc, err))
+        return out
+    if len(got) != len(pkts) or not all(_same(g, p) for g, p in zip(got, pkts)):
+        out.fail('framing:sequence', '%s: sent %d packets, re-assembled %d with payload lengths %r' % (desc, len(pkts), len(got), [len(g.data) for g in got][:6]))
+    return out
+
+
+def framing_large_cases(tier):
+    for L in (1023, 4096, 32765, 32766, 32767, 40000, 65532, 65533):
+        for cuts in ([], [1], [2, 3], [L // 2], [L + 3, L + 5], [7, L + 4 + 9 + 1]):
+            yield {'lengths': [3, L, 2], 'cuts': cuts}
+        yield {'lengths': [L, L], 'cuts': [L]}
+
+
 def run_framing_exhaustive(case):
     """one case = one packet sequence; all compositions of its stream are enumerated inside"""
     out = Outcome(nontrivial=True)
@@ -275,11 +300,27 @@ def run_write(case):
 
 
 # ---------------------------------------------------------------- (c) routing
+class _NoWaitQueueModule:
+    """stands in for the `queue` module inside cflib.cpx while the single-threaded harness makes a transaction: a queue created in
+    there that is empty raises Empty instead of blocking for ever"""
+    import queue as _queue
+    Empty = _queue.Empty
+    Full = _queue.Full
+
+    class Queue(_queue.Queue):
+        def get(self, block=True, timeout=None):
+            return _NoWaitQueueModule._queue.Queue.get(self, False)
+
+
 class _ScriptTransport:
     def __init__(self, events, on_event):
         self.events = list(events)
         self.i = 0
         self.on_event = on_event
+        self.written = []
+
+    def writePacket(self, pk):
+        self.written.append(pk)
 
     def readPacket(self):
         while True:
@@ -309,6 +350,26 @@ def run_routing(case):
         r = router_box['r']
         fn = CPXFunction(ev[1])
         with contextlib.redirect_stdout(io.StringIO()):
+            if ev[0] == 'transact':
+                # a request/answer exchange on a function whose queue already holds packets: the oldest one is the "answer"
+                # (the harness is single threaded: only done when something is waiting, an empty queue would block for ever)
+                q_ = r._rxQueues.get(ev[1])
+                if q_ is not None and not q_.empty():
+                    out.feat('routing-transaction-with-packets-waiting')
+                    sent0 = len(tr.written)
+                    import cflib.cpx as cpxmod
+                    real_q = cpxmod.queue
+                    cpxmod.queue = _NoWaitQueueModule()
+                    try:
+                        p = r.makeTransaction(_mk({'src': 1, 'dst': 3, 'fn': ev[1], 'last': False, 'data': [0xEE]}))
+                        taken.setdefault(ev[1], []).append(p)
+                    except _q.Empty:
+                        out.fail('routing:transaction-lost-waiting-packets', 'makeTransaction on function %d found nothing although packets of it were waiting' % ev[1])
+                    finally:
+                        cpxmod.queue = real_q
+                    if len(tr.written) != sent0 + 1:
+                        out.fail('routing:transaction-send', 'makeTransaction wrote %d packets' % (len(tr.written) - sent0))
+                return
             try:
                 p = r.receivePacket(fn, timeout=0)
                 taken.setdefault(ev[1], []).append(p)
@@ -343,9 +404,10 @@ def run_routing(case):
     for ev in evs:
         if ev[0] == 'packet':
             (required if ev[2]['fn'] in model_reg else optional).setdefault(ev[2]['fn'], []).append(ev[2])
-        elif ev[0] != 'error':
+        elif ev[0] not in ('error', 'transact'):
             model_reg.add(ev[1])
     tr = _ScriptTransport([(e[0], e[1]) for e in evs], on_event)
+    router_box['tr'] = tr
     router = CPXRouter(tr)
     router_box['r'] = router
     try:
@@ -389,7 +451,7 @@ def routing_strategy(draw):
     n = draw(st.integers(1, 25))
     events = []
     for _ in range(n):
-        k = draw(st.sampled_from(['packet', 'packet', 'packet', 'packet', 'register', 'take', 'error'] + (['burst'] if _ < 4 else [])))
+        k = draw(st.sampled_from(['packet', 'packet', 'packet', 'packet', 'register', 'take', 'transact', 'error'] + (['burst'] if _ < 4 else [])))
         if k == 'burst':
             events.append(['burst', draw(st.sampled_from(fns)), draw(st.sampled_from([20, 33, 40, 70, 130, 300]))])
             continue
@@ -698,6 +760,7 @@ def subchecks(tier):
     return [
         Sub('codec', run_codec, cases=codec_cases, distinct_by_construction=True),
         Sub('framing-exhaustive', run_framing_exhaustive, cases=framing_exhaustive_cases, distinct_by_construction=True),
+        Sub('framing-large', run_framing_large, cases=framing_large_cases, distinct_by_construction=True),
         Sub('framing', run_framing, strategy=framing_strategy(), examples={'quick': 1500, 'thorough': 100000}),
         Sub('write', run_write, strategy=st.lists(_pk, min_size=1, max_size=4).map(lambda l: {'packets': l}),
             examples={'quick': 200, 'thorough': 5000}),
